@@ -11,7 +11,7 @@ if ! git -C "$W" apply "$patch" 2>/dev/null; then echo "PATCH-DOES-NOT-APPLY $pa
 cp /verif/known_findings.txt "$E"/ 2>/dev/null
 fired=""
 for p in $props; do
-  out=$(EDCHECK_REPO="$W" EDCHECK_VERIF="$E" /verif/bin/edcheck -prop "$p" -tier "${TIER:-quick}" 2>&1)
+  out=$(EDCHECK_REPO="$W" EDCHECK_VERIF="$E" ${EDCHECK_BIN:-/verif/bin/edcheck} -prop "$p" -tier "${TIER:-quick}" 2>&1)
   ids=$(echo "$out" | grep -o '^VIOLATION property=C[0-9]*' | sort -u | sed 's/VIOLATION property=//' | tr '\n' ' ')
   fired="$fired$ids"
   if [ -n "${VERBOSE:-}" ]; then echo "$out" | grep -A2 '^VIOLATION' | cut -c1-400 | head -${VERBOSE}; fi
